@@ -122,3 +122,10 @@ PROPS["C11"] = dict(num=11, labs=["iso", "drv"], rule=ISO_RULE + " " + DRV_RULE,
     signatures={"11.1": "a reply to another concurrent run's probe became a hop of this run", "11.2": "identifier blocks of live runs overlap", "11.3": "echo identifiers repeat", "1": "a hop was reported for a packet that is not a genuine reply to this run's probe", "1.9": "hop from unparseable bytes"},
     trusted_base=DRV_TRUSTED + ["sync/atomic Add is linearisable (the allocator model is sequential)", "the OS never hands one local port to two sockets held at the same time (oracle)"],
     assumptions=["runs with relaxed quoted-source checking to one target are distinguished by 32-bit random ISNs only (named residue)"])
+
+LIFE_RULE = ("Lifecycle lab: the real runTracerouteOnce for udp, icmp, tcp-syn (IPv4) and udp, icmp (IPv6) over the simulated wire behind packets.NewSourceSink with ONE injected fault: handle construction, filter installation, "
+             "the k-th WriteTo / SetReadDeadline / Read (k = 1, 2, middle, last, last+1; every k in the thorough tier) x {fatal error, deadline error, zero-length read}; after the call returns the virtual clock runs on for 2 s so that any goroutine "
+             "the run left behind touches its closed handles. Observed: error / result nil-ness, errors.Is(err, injected cause), per-handle close counts, use after close. SACK: the real-run part of the policy lab (kind 12: filter/send/read faults, handles closed once).")
+PROPS["C10"] = dict(num=10, labs=["life", "par"], rule=LIFE_RULE + " " + PAR_RULE, nontrivial="any fault-injection case", trivial_classes=[],
+    signatures={"10.1": "a handle was not closed exactly once, or was used after its close (also by a goroutine outliving the call)", "10.2": "the returned error does not wrap the injected cause", "10.3": "an error was returned together with a result, or neither", "10.9": "the entry point panicked"},
+    trusted_base=PAR_TRUSTED + ["fault injection happens at the Source/Sink seam; the real AF_PACKET / raw-socket code below it is not exercised"], assumptions=[])
